@@ -601,11 +601,48 @@ def check_equality_cover(F, rep):
     rep.floor("PartialEq impls of colour types", n, 29)
 
 
+def check_deserializer_entry_points(F, rep):
+    """DESER-FWD: AlphaDeserializer is the reader for what AlphaSerializer wrote: one more element than the colour's own (`len + 1` where the
+    writer adds one), the colour's own count handed to the visitor as `field_count` (so it knows which element is alpha), the caller's
+    visitor and the alpha slot passed through, and each shape read with the inner deserializer's method of the same name."""
+    V_SEQ = r"mk:AlphaSeqVisitor\{alpha,inner\}\(d\.alpha, %s\)"
+    V_MAP = r"mk:AlphaMapVisitor\{alpha,field_count,inner\}\(d\.alpha, %s, %s\)"
+    G = r"<D,'_,serde::alpha_deserializer::Alpha(?:Seq|Map)Visitor<'_, V, A>>"
+    EXPECT = {
+        "deserialize_seq": r"_::Deserializer::deserialize_seq%s\(d\.inner, %s\)" % (G, V_SEQ % "a1"),
+        "deserialize_tuple": r"_::Deserializer::deserialize_tuple%s\(d\.inner, 1 \+ a1, %s\)" % (G, V_MAP % (r"mk:Some\{0\}\(a1\)", "a2")),
+        "deserialize_tuple_struct": r"_::Deserializer::deserialize_tuple_struct%s\(d\.inner, a1, 1 \+ a2, %s\)" % (G, V_MAP % (r"mk:Some\{0\}\(a2\)", "a3")),
+        "deserialize_map": r"_::Deserializer::deserialize_map%s\(d\.inner, %s\)" % (G, V_MAP % (r"unit:std::prelude::v1::None", "a1")),
+        "deserialize_struct": r"_::Deserializer::deserialize_struct%s\(d\.inner, a1, a2, %s\)" % (G, V_MAP % (r"mk:Some\{0\}\(core::slice::<impl \[T\]>::len<&str>\(a2\)\)", "a3")),
+        "deserialize_newtype_struct": r"_::Deserializer::deserialize_tuple_struct%s\(d\.inner, a1, 2, %s\)" % (G, V_MAP % (r"mk:Some\{0\}\(1\)", "a2")),
+    }
+    from .common import Session
+    from . import alg, poly
+    from .sym import Opaque
+    S = Session(F)
+    n = 0
+    for b in F.bodies:
+        im = b["_impl"]
+        if im is None or not b["file"].endswith("serde/alpha_deserializer.rs") or not im["self_s"].startswith("serde::alpha_deserializer::AlphaDeserializer<"):
+            continue
+        if b["name"] not in EXPECT:
+            continue
+        n += 1
+        try:
+            v, _ = S.eval(b, names=["d", "a1", "a2", "a3"])
+            got = alg._short(v, 700)
+            rep.ob("DESER-FWD", "AlphaDeserializer::" + b["name"], re.fullmatch(EXPECT[b["name"]], got) is not None, got, F.loc(b))
+        except (Opaque, poly.TooBig) as ex:
+            rep.fail("DESER-FWD", "AlphaDeserializer::" + b["name"], "uninterpretable: %s" % ex, F.loc(b))
+    rep.floor("AlphaDeserializer entry points", n, 6)
+
+
 def run(F, rep, tier="quick", extra=None, only=None):
     rep.trusted += ["rustc name resolution / type check; derive expansions as seen in HIR", "serde's data model contract and derive semantics; JSON/RON crates"]
     check_derived(F, rep)
     check_serializer(F, rep)
     check_deserializer(F, rep)
     check_entry_points(F, rep)
+    check_deserializer_entry_points(F, rep)
     check_equality_cover(F, rep)
     return {"level": "other", "explanation": EXPLANATION}
